@@ -42,7 +42,7 @@ CLAIMED = {
         "Theorems C06_invalid_always / C06_valid_never (Props/C06.v): a structural predicate `valid` decides, for every assignment at once, whether evaluation raises the "
         "invalid-expression error; C06_ahb lifts this to AHB expressions (every generated content evaluation result) and C06_validity_check proves that the model of is_valid_expression's "
         "try-every-result loop answers true iff every condition part is valid; C06_validity_loop_under_every_schedule / C06_validity_check_under_every_schedule lift the loop to a task tree "
-        "(one gathered coroutine per generated result, each storing its result in a context variable before it evaluates): every schedule returns the structural verdict and every evaluation sees its own result. Correspondence and oracle: all trees <= 3 leaves x all assignments; is_valid_expression vs the structural criterion and vs Model/Validity.v.",
+        "(one gathered coroutine per generated result, each storing its result in a context variable before it evaluates): every schedule returns the structural verdict and every evaluation sees its own result. Proofs/C06_runs.v relates validity to the grouping C01 leaves open: a valid tree has a valid flattening, a valid corner-free flattening makes every tree with that flattening valid (C06_validity_independent_of_run_grouping); the one corner where the grouping decides is characterised exactly (C05_regrouping_validity, I-C05). Correspondence and oracle: all trees <= 3 leaves x all assignments; is_valid_expression vs the structural criterion and vs Model/Validity.v.",
         "Trusted: as C04; Model/Validity.v as a model of is_valid_expression (validated by the validity-check oracle on every run).",
         "DESIGN.md section 5 C06",
     ),
